@@ -164,7 +164,7 @@ func init() {
 						t = listWithPayload(r, n)
 					}
 					c.Tags[fmt.Sprintf("tree.boundary.%d", n)]++
-				case i%50 == 7 && c.Thorough():
+				case (i == 57 || i == 107) && c.Thorough(): // two of them: each costs ~100 MB of JSON on both sides
 					t = hx(r.Bytes(1 << 24)) // the quantifier's largest string
 					c.Tags["tree.str.2^24"]++
 				default:
@@ -189,12 +189,21 @@ func init() {
 				maxLen = 3
 			}
 			c.Add(map[string]any{"op": "rlp.decode", "hex": ""}, "exh")
+			// all strings of 1 and 2 bytes; of 3 bytes (thorough) those whose first byte sits at a boundary of the
+			// prefix classes (all 16.7M cost ~25 GB of requests held in memory for no additional structure)
+			lead3 := map[byte]bool{}
+			for _, b0 := range []byte{0x00, 0x01, 0x7f, 0x80, 0x81, 0x82, 0xb7, 0xb8, 0xb9, 0xba, 0xbf, 0xc0, 0xc1, 0xc2, 0xc3, 0xf7, 0xf8, 0xf9, 0xfa, 0xff} {
+				lead3[b0] = true
+			}
 			for l := 1; l <= maxLen; l++ {
 				total := 1 << (8 * l)
 				for v := 0; v < total; v++ {
 					b := make([]byte, l)
 					for k := 0; k < l; k++ {
 						b[k] = byte(v >> (8 * (l - 1 - k)))
+					}
+					if l == 3 && !lead3[b[0]] {
+						continue
 					}
 					c.Add(map[string]any{"op": "rlp.decode", "hex": hx(b)}, "exh")
 				}
